@@ -9,7 +9,7 @@ use proptest::prelude::*;
 use rodbus::server::{AddressFilter, RequestHandler, ServerHandlerMap, TlsServerConfig};
 use rodbus::{ExceptionCode, UnitId};
 use serde::{Deserialize, Serialize};
-use tokio::io::{AsyncRead, AsyncWrite, AsyncWriteExt};
+use tokio::io::AsyncWriteExt;
 use tokio::net::{TcpListener, TcpStream};
 use tokio_rustls::rustls::pki_types::ServerName;
 
@@ -114,9 +114,6 @@ enum Conn {
     Stalled,
 }
 
-trait Duplex: AsyncRead + AsyncWrite + Unpin + Send {}
-impl<T: AsyncRead + AsyncWrite + Unpin + Send> Duplex for T {}
-type Link = Box<dyn Duplex>;
 
 pub fn check_c15(case: &C15Case) -> CaseResult {
     retry3(|slow| run_once(case, slow))
